@@ -392,6 +392,49 @@ def check_crc(cx, chk):
                       "front end does not correspond to the grammar in the tree" % (m.group(1) if m else None, crc), "codegen/src/grammar/generated.rs:2")
 
 
+def check_use(cx, chk):
+    """What the front end reads it hands to the generator: every named field of the syntax-tree types generated from grammar.ebnf
+    is read by the generator's own code somewhere.  A field that is filled but never read is a part of the grammar text that is
+    parsed and then silently ignored (e.g. the `@check`s after `@char` landing under a mistyped label)."""
+    cg = cx.codegen
+    reads = set()
+
+    def scan(o):
+        if isinstance(o, dict):
+            if "p" in o and "l" in o:
+                for pe in o.get("p", []):
+                    if pe["k"] == "field" and "grammar::generated::" in (pe.get("owner") or ""):
+                        reads.add((pe["owner"].split("::")[-1].split("<")[0], pe["name"]))
+            for v in o.values():
+                scan(v)
+        elif isinstance(o, list):
+            for v in o:
+                scan(v)
+    nf = 0
+    for p, f in cg.fns.items():
+        if "mir" not in f or "::grammar::generated::" in p or re.match(r"^\w+::<grammar::generated::[\w<>', ]+ as (std|core)::(fmt::Debug|clone::Clone|cmp::\w+|default::Default|hash::Hash)>::", p):
+            continue        # the front end itself and the derives on its types (Debug / Clone touch every field)
+        nf += 1
+        b = cx.body(cg, p)
+        for i in b.reach:
+            scan(b.blocks[i])
+    adts = [a for a in cg.j["adts"] if "::grammar::generated::" in a["path"] and "peginator_generated" not in a["path"]]
+    n = 0
+    for a in adts:
+        nm = a["path"].split("::")[-1]
+        for v in a["variants"]:
+            for fl in v["fields"]:
+                if fl["name"].isdigit():
+                    continue
+                n += 1
+                if (nm, fl["name"]) not in reads:
+                    chk.violation("C12.use", "%s.%s never read" % (nm, fl["name"]),
+                                  "the front end fills %s.%s (%s) but no code of the generator reads it: that part of a grammar text is parsed and then "
+                                  "ignored" % (nm, fl["name"], fl["ty"][:60]), "%s:%d" % (a["span"]["file"], a["span"]["line"]) if a.get("span") else None)
+    chk.ok("C12.use", "syntax-tree fields", {"types": len(adts), "named_fields": n, "read_by_generator": len(reads), "generator_functions_scanned": nf})
+    chk.floor("C12.use", "named fields of the front end's syntax tree", n, 20)
+
+
 def run(cx, chk):
     chk.explanation = (
         "Tier 1: escape decoding decided exactly - the 6 simple escapes against the spellings read from grammar.ebnf, \\xXX as "
@@ -408,6 +451,7 @@ def run(cx, chk):
     check_escapes(cx, chk, g)
     check_flags(cx, chk, g)
     check_tokens(cx, chk, g)
+    check_use(cx, chk)
     check_crc(cx, chk)
     try:
         from . import lift_rules
